@@ -23,7 +23,9 @@ for d in sorted(glob.glob(os.path.join(ROOT, "seeded", "C*"))):
     notes = open(os.path.join(d, "notes.md")).read() if os.path.exists(os.path.join(d, "notes.md")) else ""
     title = notes.strip().splitlines()[0].lstrip("# ").strip() if notes.strip() else ""
     hist = m.get("history") or [{"verif_commit": m.get("verif_commit", "?"), "check_exit": m["check_exit"], "check_seconds": m["check_seconds"]}]
-    if name in FIRST:
+    if name in FIRST and name.endswith("-r2"):
+        hist = [{"verif_commit": "(as it stood when the change arrived)", "check_exit": 0, "check_seconds": "-", "note": FIRST[name]}] + hist
+    elif name in FIRST:
         hist = [{"verif_commit": "before 1e031ed (dev run)", "check_exit": 0, "check_seconds": "-", "note": FIRST[name]}] + hist
     rows.append((name, m["property"], files, title, hist, refuted, clauses, m))
 
@@ -32,6 +34,10 @@ STRENGTHENED = {
     "C10": "adaptive policy was exercised with one feedback before call 1 and 4 calls; added c10_adaptive_history (drain, feedback x2, idle gaps, burst of 9) - which also exposed a genuine defect on the unchanged tree (fixed: 39145e5)",
     "C13": "cluster runs never combined slow a<->b links with a transient 'suspect' rumour; added c13_probe_cycle",
     "C15": "crash_recovery has 2 writers x 2 writes, too few for a non-contiguous flushed sequence list; added the c15_wal_ops lemma over arbitrary log states",
+    "C06-r2": "network faults only had two-way partitions; added one-way partitions and reverse-direction probes",
+    "C08-r2": "no harness changed a concurrency limit at run time; added c08_dynamic_limit; the pipeline oracle also stopped accepting worker-side rejections, which exposed a genuine double-poll defect of the pinned tree (fixed: 5c5d251); the change was then ported onto the repaired driver (patch_ported.diff, demo_ported.py)",
+    "C11-r2": "the leader handled the AppendEntries response before anything else could happen; added a client submit while the round trip is in flight",
+    "C12-r2": "the acceptor lemma assumed 'promised >= accepted' of its pre-state but never asserted it of the post-state; the invariant is now checked for inductiveness",
     "C18": "HLC was always started from a fresh clock; now its initial (physical, logical) state is symbolic",
 }
 out = ["# Seeded regressions: what the checks catch", "",
